@@ -53,7 +53,11 @@ func Fail(t TB, rec *stats.Recorder, sig string, format string, args ...any) boo
 		rec.KnownHit(sig)
 		return true
 	}
-	t.Fatalf("VERIF-SIG: %s\n%s", sig, fmt.Sprintf(format, args...))
+	msg := fmt.Sprintf(format, args...)
+	if len(msg) > 6000 {
+		msg = msg[:6000] + "…(truncated)"
+	}
+	t.Fatalf("VERIF-SIG: %s\n%s", sig, msg)
 	return true
 }
 
